@@ -373,6 +373,15 @@ theorem bump_spec (oldFee vsize fee extraFee : Nat) (outs outs' : List BOut)
     obtain ⟨extra, hx, hf, hs⟩ := bumpE_ok hb
     exact ⟨hf, extra, (bumpExtra_ok hx).1, (bumpExtra_ok hx).2, hs⟩
 
+/-- The change output that pays the rest loses exactly the rest (repair F115): with change outputs of
+900 and 300 and an extra fee of 1000 the first is used up and the second keeps 200, so exactly 1000
+are taken.  Before the repair the whole extra fee was subtracted from the second one:
+300 - 1000 = -700, an output below zero. -/
+theorem bump_second_change_pays_rest :
+    bumpLoop 1000 1000 [(5000, false), (900, true), (300, true)] = (0, [(5000, false), (200, true)]) ∧
+    ((300 : Int) - 1000 < 0) := by
+  decide
+
 theorem pickExtraInput_spec (utxos : List Utxo) (current : List Nat) (amountMin : Nat) (u : Utxo)
     (h : pickExtraInput utxos current amountMin = some u) :
     u ∈ utxos ∧ u.id ∉ current ∧ amountMin ≤ u.value := by
